@@ -16,6 +16,7 @@ type ChildRule struct {
 
 // CompositeCfg describes one CompositeController object.
 type CompositeCfg struct {
+	EchoHook         bool // scenario fact: the hook's children carry the annotations of the observed child of the same name
 	PlainOwnerHook   bool // scenario fact, not part of the object: the hook's children carry a plain ownerReference to the parent
 	Name             string
 	Parent           *Resource
@@ -136,25 +137,27 @@ type Program struct {
 
 // TemplateProgram is the family of hook programs of DESIGN.md §4.2.
 type TemplateProgram struct {
-	ParentKey      string // "parent" (composite) or "object" (decorator)
-	ChildrenKey    string // "children" or "attachments"
-	Kinds          []*Resource
-	Ordered        bool // child i is desired only once child i-1 was observed
-	NeedReady      bool // ... and observed Ready
-	Derived        bool // second kind: one per observed child of the first kind
-	SetNamespace   bool // set metadata.namespace on namespaced children (always done for cluster parents)
-	NoLabels       bool // do not put the selector labels on children (generateSelector adds controller-uid)
-	BadLabel       bool // put labels that do not satisfy the selector
-	OwnUpdated     bool // return an own status.conditions[Updated]
-	NilStatus      bool // return no status at all
-	Related        bool // one extra child per related ConfigMap
-	ResyncAfter    float64
-	Teardown       bool // finalize: drop one observed child per call instead of all at once
-	WithStatus     bool // desired children carry a status stanza (which metacontroller must ignore)
-	EmptyNS        bool // namespaced parent: children carry metadata.namespace "" (present but empty) instead of omitting it
-	PlainOwner     bool // children carry a plain (non-controller) ownerReference to the parent, as a hook copying references would
-	FinalizeAtOnce bool // finalize: answer finalized:true with no children straight away, whatever is observed
-	FinalizeHold   bool // finalize: while spec.template.hold is true keep the children and answer finalized:false;
+	ParentKey       string // "parent" (composite) or "object" (decorator)
+	ChildrenKey     string // "children" or "attachments"
+	Kinds           []*Resource
+	Ordered         bool // child i is desired only once child i-1 was observed
+	NeedReady       bool // ... and observed Ready
+	Derived         bool // second kind: one per observed child of the first kind
+	SetNamespace    bool // set metadata.namespace on namespaced children (always done for cluster parents)
+	NoLabels        bool // do not put the selector labels on children (generateSelector adds controller-uid)
+	BadLabel        bool // put labels that do not satisfy the selector
+	OwnUpdated      bool // return an own status.conditions[Updated]
+	NilStatus       bool // return no status at all
+	Related         bool // one extra child per related ConfigMap
+	ResyncAfter     float64
+	Teardown        bool // finalize: drop one observed child per call instead of all at once
+	WithStatus      bool // desired children carry a status stanza (which metacontroller must ignore)
+	EmptyNS         bool // namespaced parent: children carry metadata.namespace "" (present but empty) instead of omitting it
+	PlainOwner      bool // children carry a plain (non-controller) ownerReference to the parent, as a hook copying references would
+	Descending      bool // list the children of the first kind from the highest ordinal down (StatefulSet-like)
+	EchoAnnotations bool // desired children carry the annotations of the observed child of the same name (a hook that preserves what others annotated)
+	FinalizeAtOnce  bool // finalize: answer finalized:true with no children straight away, whatever is observed
+	FinalizeHold    bool // finalize: while spec.template.hold is true keep the children and answer finalized:false;
 	// otherwise keep the children and answer finalized:true at once (legal: leftovers go to the GC)
 }
 
@@ -273,7 +276,24 @@ func (tp *TemplateProgram) Desired(req Object) []Object {
 				break
 			}
 		}
-		out = append(out, tp.desiredChild(parent, k0, name, ns, i))
+		c := tp.desiredChild(parent, k0, name, ns, i)
+		if tp.EchoAnnotations {
+			key := ns
+			if key == "" && k0.Namespaced {
+				key = pns
+			}
+			if o, ok := obs0[innerKey(pns, key, name)]; ok {
+				if ann, ok := getPath(o, "metadata", "annotations").(map[string]interface{}); ok && len(ann) > 0 {
+					setPath(c, deepCopyAny(ann), "metadata", "annotations")
+				}
+			}
+		}
+		out = append(out, c)
+	}
+	if tp.Descending {
+		for i, j := 0, len(out)-1; i < j; i, j = i+1, j-1 {
+			out[i], out[j] = out[j], out[i]
+		}
 	}
 	if len(tp.Kinds) > 1 {
 		k1 := tp.Kinds[1]
@@ -518,4 +538,8 @@ func StandardBoot(w *World, opts *BootOptions) {
 			w.ResyncHint = d
 		}
 	}
+}
+
+func deepCopyAny(v interface{}) interface{} {
+	return mustParseAny(jsonString(v))
 }
